@@ -13,7 +13,6 @@ import (
 	"fmt"
 	"os"
 	"path/filepath"
-	"runtime/pprof"
 	"sort"
 	"strings"
 	"sync"
@@ -254,11 +253,6 @@ func sortedJoin(xs []string) string {
 var _ = store.CleanupConfig{}
 
 func main() {
-	if pf := os.Getenv("C10_PROF"); pf != "" {
-		f, _ := os.Create(pf)
-		pprof.StartCPUProfile(f)
-		defer pprof.StopCPUProfile()
-	}
 	run := evid.New("C10", "model_checking")
 	thorough := run.Thorough()
 	run.Rule = "E4: every file set of the small-scope grid (data-file age class x last-access class x persist sidecar x cleanup config x store layout x restart) is built through the store API (+os.Chtimes) and cleaned by the real cleanupManager.cleanup; every deletion budget k for the usage-driven policy; every (age, ownership, persist, write-back task outcome) case through the real origin forcecleanup/DELETE handlers. E3: BFS over all op histories (create, read, persist on/off, DeleteFile, cleanup pass, clock advance, restart) on the real base LRU file stores, every transition compared with the persist-protection model and the exact idle/expired set. A case is distinct by its (config, per-file class, outcome) tuple / BFS state key."
@@ -269,7 +263,7 @@ func main() {
 	run.Assume("the text does not say what idle means for a file without a recorded access time: such files are only checked for persist protection and TTL expiry")
 	run.Assume("usage-driven policy: 'served to consumers' = accessed >= 10 min after download, 'not served' = never accessed after download (the 1 s heuristic boundary is kept out); the relative order of 'for sure in agent' (>45 min) vs merely served files is not constrained")
 
-	budget := 40 * time.Second
+	budget := 90 * time.Second
 	if thorough {
 		budget = 10 * time.Minute
 	}
@@ -283,6 +277,5 @@ func main() {
 		part.f(run, thorough, deadline)
 		run.Set("wall_s_"+part.name, time.Since(t0).Seconds())
 	}
-	pprof.StopCPUProfile()
 	run.Finish()
 }
